@@ -472,7 +472,12 @@ def single(fn):
     return fn
 
 
-def module(name, trait, fns, private_text="", opts="", props=("C01",)):
+MOD_FILLERS = ["    pub const FILL_A: u32 = 1;\n", "    pub struct FillB(pub u8);\n", "    #[allow(dead_code)]\n    fn fill_private(_x: u64) -> u64 {\n        0\n    }\n",
+               "    pub type FillC = u64;\n", "    pub static FILL_D: u8 = 3;\n", "    pub struct FillB(pub u8);\n    impl FillB {\n        pub fn hidden_fn(&self) -> u8 {\n            self.0\n        }\n    }\n"]
+
+
+def module(name, trait, fns, private_text="", opts="", props=("C01",), fillers=()):
+    """fillers: positions (fn indices) before which a non-fn item is interleaved"""
     chunks = []
     het = any(fn.hetero for fn in fns)
     cid = new_container()
@@ -481,6 +486,10 @@ def module(name, trait, fns, private_text="", opts="", props=("C01",)):
         fn.cid = cid
         fn.container_hetero = het
         register(fn, container=name)
+        if len(chunks) in fillers or (fillers and len(chunks) // 2 in fillers):
+            k = len(chunks)
+            chunks.append(MOD_FILLERS[k % len(MOD_FILLERS)].replace("FILL_A", f"FILL_A{k}").replace("FillB", f"FillB{k}").replace("fill_private", f"fill_private{k}")
+                          .replace("FillC", f"FillC{k}").replace("FILL_D", f"FILL_D{k}"))
         chunks.append(fn_text(fn, indent="    "))
     attr = f"#[entrait(pub {trait}{', ' + opts if opts else ''})]"
     corpus.append(cmark(cid) + ccfg(cid) + f"{attr}\npub mod {name} {{\n    use super::*;\n" + "\n".join(chunks) + private_text + "}\n" + cmark(0))
@@ -646,6 +655,9 @@ module("mh", "Mh", [
     Fn("mh_str", ("impl", ["F0"]), ["str", "string"]),
     Fn("amh_fn", ("impl", ["Af0"]), ["fnonce", "u64"], is_async=True),
 ])
+module("mfill", "Mfill", [Fn(f"mfill_{i}", ("impl", ["F0"]), ["u64", "u64"], calls=["f0"]) for i in range(5)], fillers=(0, 1, 2, 3, 4))
+module("amfill", "Amfill", [Fn(f"amfill_{i}", ("impl", ["Af0"]), ["u64", "u64"], is_async=True) for i in range(4)], fillers=(0, 2))
+module("mndfill", "Mndfill", [Fn(f"mndfill_{i}", ("nodeps", []), ["u64", "u64"]) for i in range(4)], opts="no_deps", fillers=(0, 1, 3))
 module("mnd", "Mnd", [
     Fn("mna", ("nodeps", []), ["u64", "u64"]),
     Fn("mnb", ("nodeps", []), ["u64", "u64"]),
@@ -998,7 +1010,10 @@ bundle_traits.append(("SlotRef", False))
 # --------------------------------------------------------------------------
 
 
-def inversion(trait, impl_trait, mode, methods, delegate_ident=None, async_trait=False, path_targets=False):
+IMPL_FILLERS = ["    pub const SPAN: u32 = 1;\n", "    pub const NAME: &'static str = \"x\";\n", "    #[allow(dead_code)]\n    const HIDDEN: u8 = 2;\n"]
+
+
+def inversion(trait, impl_trait, mode, methods, delegate_ident=None, async_trait=False, path_targets=False, fillers=()):
     """methods: list of (decl Fn with SELF deps, impl deps form, calls);
     path_targets: the impl blocks are written for `module::Type` paths while a
     same-named decoy type with same-named inherent functions is in scope"""
@@ -1048,7 +1063,9 @@ def inversion(trait, impl_trait, mode, methods, delegate_ident=None, async_trait
             text += f"pub struct {target}(pub u64);\n"
         iattr = "#[entrait]" if mode == "static" else "#[entrait(ref)]"
         text += f"{cfg}{iattr}\n{at}impl {impl_trait} for {target} {{\n"
-        for decl, deps, calls in methods:
+        for mi, (decl, deps, calls) in enumerate(methods):
+            if mi in fillers:
+                text += IMPL_FILLERS[mi % len(IMPL_FILLERS)].replace("SPAN", f"SPAN{mi}").replace("NAME", f"NAME{mi}").replace("HIDDEN", f"HIDDEN{mi}")
             f = Fn(decl.name, deps, [], ret=decl.ret, is_async=decl.is_async, calls=calls, vis="pub")
             f.params = decl.params
             f.fn_id = decl.fn_ids[which]
@@ -1100,6 +1117,11 @@ inversion("DynInvP", "DynInvPImpl", "dyn", [
     (Fn("dp1", SELF, ["u64", "u64"]), ("impl", ["F0"]), ["f0"]),
     (Fn("dp2", SELF, ["u64", "u64"]), ("any", []), []),
 ], path_targets=True)
+inversion("InvFill", "InvFillImpl", "static", [(Fn(f"ifill_{i}", SELF, ["u64", "u64"]), ("impl", ["F0"]), ["f0"]) for i in range(5)],
+          delegate_ident="DelegateInvFill", fillers=(0, 2))
+inversion("AInvFill", "AInvFillImpl", "static", [(Fn(f"aifill_{i}", SELF, ["u64", "u64"], is_async=True), ("impl", ["Af0"]), ["af0"]) for i in range(4)],
+          delegate_ident="DelegateAInvFill", fillers=(0, 1))
+inversion("DynInvFill", "DynInvFillImpl", "dyn", [(Fn(f"dfill_{i}", SELF, ["u64", "u64"]), ("any", []), []) for i in range(4)], fillers=(0, 3))
 inversion("AInv", "AInvImpl", "static", [
     (Fn("ai1", SELF, ["u64", "u64"], is_async=True), ("impl", ["Af0"]), ["af0"]),
     (Fn("ai2", SELF, ["u64", "u64"], is_async=True), ("impl", ["Af1", "F0"]), ["af1", "f0"]),
@@ -1230,6 +1252,18 @@ for f in umb_fns:
     f.section = "unmock"
     UNMOCK.append(f)
 unmock_traits.append(("Umb", False))
+umf_fns = [Fn(f"umf_{i}", ("impl", ["U0"]), ["u64", "u64"], calls=["u0"]) for i in range(4)]
+module("umf", "Umf", umf_fns, opts="mock_api = UmfMock, export", props=("C01", "C11"), fillers=(0, 1, 2))
+for f in umf_fns:
+    f.section = "unmock"
+    UNMOCK.append(f)
+unmock_traits.append(("Umf", False))
+umnf_fns = [Fn(f"umnf_{i}", ("nodeps", []), ["u64", "u64"]) for i in range(4)]
+module("umnf", "Umnf", umnf_fns, opts="no_deps, mock_api = UmnfMock, export", props=("C01", "C11"), fillers=(0, 2))
+for f in umnf_fns:
+    f.section = "unmock"
+    UNMOCK.append(f)
+unmock_traits.append(("Umnf", False))
 umn_fns = [
     Fn("umna", ("nodeps", []), ["u64", "u64"]),
     Fn("umnb", ("nodeps", []), ["u64", "u64"]),
@@ -1239,6 +1273,62 @@ for f in umn_fns:
     f.section = "unmock"
     UNMOCK.append(f)
 unmock_traits.append(("Umn", False))
+
+
+# --------------------------------------------------------------------------
+# entrait invocations that are NOT at module level: function-local items, with
+# same-named decoy functions at module level (name resolution of generated
+# paths like `self::f` differs between the two scopes)
+# --------------------------------------------------------------------------
+def local_scope():
+    cid = new_container()
+    cfg = ccfg(cid)
+    text = cmark(cid)
+    text += f"{cfg}pub enum LocalWho<'a> {{\n    A(&'a Impl<AppA>),\n    B(&'a Impl<AppB>),\n    #[cfg(feature = \"unimock\")]\n    Mock(&'a ::unimock::Unimock),\n}}\n"
+    specs = [
+        Fn("loc_nd", ("nodeps", []), ["u64", "u64"], opts="no_deps, mock_api = LocNdMock, export"),
+        Fn("loc_gen", ("any", []), ["u64", "u64"], opts="mock_api = LocGenMock, export"),
+        Fn("aloc_nd", ("nodeps", []), ["u64", "u64"], opts="no_deps, mock_api = AlocNdMock, export", is_async=True),
+        Fn("loc_plain", ("any", []), ["u64", "u64"]),
+    ]
+    for fn in specs:
+        register(fn)
+        fn.cid = cid
+        fn.section = "unmock" if "mock_api" in fn.opts else "fn"
+        fn.props = ["C01", "C11"] if "mock_api" in fn.opts else ["C01"]
+        if "mock_api" in fn.opts:
+            UNMOCK.append(fn)
+        nodeps = fn.deps[0] == "nodeps"
+        asy = "async " if fn.is_async else ""
+        aw = ".await" if fn.is_async else ""
+        # module-level decoy with the same name and a compatible signature
+        dparams = ("" if nodeps else "_deps: &D, ") + "_a: u64, _b: u64"
+        dg = "" if nodeps else "<D>"
+        text += (f"{cfg}#[allow(dead_code)]\n{asy}fn {fn.name}{dg}({dparams}) -> u64 {{\n    let __f = sim::enter(60002, 0, &[]);\n    sim::exit(__f, &[])\n}}\n")
+        inner = fn_text(Fn.__new__(Fn), indent="    ") if False else None
+        fn.vis = ""
+        body = fn_text(fn, indent="    ")
+        attr = f"    #[entrait({fn.trait}, {fn.opts})]" if fn.opts else f"    #[entrait({fn.trait})]"
+        call_direct = f"{fn.name}(a, b){aw}" if nodeps else None
+        text += f"{cfg}pub {asy}fn {fn.name}_call(who: LocalWho<'_>, direct: bool, a: u64, b: u64) -> u64 {{\n{attr}\n{body}"
+        text += "    match who {\n"
+        for arm_ in ("A", "B"):
+            d = f"{fn.name}(a, b){aw}" if nodeps else f"{fn.name}(app, a, b){aw}"
+            text += f"        LocalWho::{arm_}(app) => {{\n            if direct {{\n                {d}\n            }} else {{\n                app.{fn.name}(a, b){aw}\n            }}\n        }}\n"
+        if "mock_api" in fn.opts:
+            text += f"        #[cfg(feature = \"unimock\")]\n        LocalWho::Mock(app) => app.{fn.name}(a, b){aw},\n"
+        else:
+            text += f"        #[cfg(feature = \"unimock\")]\n        LocalWho::Mock(_) => unreachable!(),\n"
+        text += "    }\n}\n"
+        aw2 = ""
+        fn.trait_call = f"{fn.name}_call(LocalWho::{{AB}}(app), false, {{args}})"
+        fn.direct_call = f"{fn.name}_call(LocalWho::{{AB}}(app), true, {{args}})"
+        fn.recv_expr = "0" if nodeps else "sim::addr(app)"
+        fn.lookups = 0
+    corpus.append(text + cmark(0))
+
+
+local_scope()
 
 # --------------------------------------------------------------------------
 # concrete-dependency second hop and Impl<ConcDep> handle
@@ -1368,7 +1458,7 @@ def arm(fn, ab, is_async, mock=False):
     other = f"crate::corpus::other_{ab.lower()}()"
     args = args.replace("{OTHER}", other)
     fps = [f.replace("{OTHER}", other) for f in fps]
-    tc = tc.replace("{args}", args).replace(", )", ")")
+    tc = tc.replace("{args}", args).replace("{AB}", "Mock" if mock else ab).replace(", )", ")")
     dc = dc.replace("{args}", args).replace("{AB}", ab).replace("{ab}", ab.lower()).replace(", )", ")")
     aw = ".await" if fn.is_async else ""
     if mock:
